@@ -12,6 +12,7 @@ R-FLAG-WIRE    CLI flag flip_y reaches parameter flip_y and swap_xy reaches swap
 import itertools
 
 from . import comp, ir
+from .wire import _tokens as wire_tokens
 from .report import m_replace
 
 META = {
@@ -376,7 +377,7 @@ def rules(ck, P):
                     sides[side] = (used, ops)
             oks = len(sides) == 4
             for side, (used, ops) in sides.items():
-                oks = oks and side in used and ("self" in used)
+                oks = oks and any(wire_tokens(u) == wire_tokens(side) for u in used) and ("self" in used)
                 if side.endswith("min"):
                     oks = oks and bool(ops & {"saturating_sub", "-", "checked_sub"}) and not (ops & {"+", "saturating_add"})
                 else:
@@ -470,7 +471,7 @@ def rules(ck, P):
                 for pn, a in zip(pnames, n["a"]):
                     if pn in OPS:
                         src = ir.place_str(a)
-                        ck.check(src.endswith("." + pn), "R-FLAG-WIRE", uq + "|new|" + pn, "parameter %s receives option %s" % (pn, src),
+                        ck.check(wire_tokens(src.split(".")[-1]) == wire_tokens(pn), "R-FLAG-WIRE", uq + "|new|" + pn, "parameter %s receives option %s" % (pn, src),
                                  "parameter %s receives option %s (crossed flags)" % (pn, src), ir.loc(n))
     if newp:
         # constructor stores each parameter in the same-named field
@@ -478,7 +479,7 @@ def rules(ck, P):
             if n.get("k") == "struct":
                 for f in n["fields"]:
                     if f["name"] in OPS:
-                        ck.check(ir.place_str(f["e"]) == f["name"], "R-FLAG-WIRE", newp[0]["q"] + "|" + f["name"], "constructor stores %s in field %s" % (f["name"], f["name"]),
+                        ck.check(wire_tokens(ir.place_str(f["e"])) == wire_tokens(f["name"]), "R-FLAG-WIRE", newp[0]["q"] + "|" + f["name"], "constructor stores %s in field %s" % (f["name"], f["name"]),
                                  "constructor stores %s in field %s" % (ir.place_str(f["e"]), f["name"]), ir.loc(n))
 
 
